@@ -81,7 +81,7 @@ fn artifacts_with_prefix(prefix: &str) -> Vec<PathBuf> {
 fn interesting(out: &str) -> String {
     let mut keep = vec![];
     for l in out.lines() {
-        if l.contains("ERROR:") || l.contains("SUMMARY:") || l.contains("panicked") || l.contains("assertion") || l.contains("deadly signal") || l.contains("Test unit written") || l.contains("left:") || l.contains("right:") {
+        if l.contains("ORACLE-FAILURE") || l.contains("ERROR:") || l.contains("SUMMARY:") || l.contains("panicked") || l.contains("assertion") || l.contains("deadly signal") || l.contains("Test unit written") || l.contains("left:") || l.contains("right:") {
             keep.push(l.to_string());
         }
     }
@@ -143,6 +143,17 @@ pub fn run_dirs_once_with(bin: &str, dirs: &[(PathBuf, bool)], artifact_prefix: 
 
 /// Coverage-guided campaign: `jobs` independent libFuzzer processes, `runs` executions each.
 pub fn campaign(bin: &str, corpus: &Path, runs: u64, jobs: usize, seed: u64, max_len: usize, artifact_prefix: &str, xdg_root: &Path, allow_data: bool) -> Outcome {
+    campaign_env(bin, corpus, runs, jobs, seed, max_len, artifact_prefix, xdg_root, allow_data, &[])
+}
+
+pub fn oracle_bin() -> &'static str {
+    static D: std::sync::OnceLock<String> = std::sync::OnceLock::new();
+    D.get_or_init(|| format!("{}-oracle/target/x86_64-unknown-linux-gnu/release/oracle", fuzz_dir()))
+}
+
+/// As `campaign`, with further environment variables for the target (the `oracle` target reads its mode there).
+#[allow(clippy::too_many_arguments)]
+pub fn campaign_env(bin: &str, corpus: &Path, runs: u64, jobs: usize, seed: u64, max_len: usize, artifact_prefix: &str, xdg_root: &Path, allow_data: bool, envs: &[(&str, &str)]) -> Outcome {
     let started = std::time::SystemTime::now() - std::time::Duration::from_secs(2);
     let results: Vec<(bool, String)> = (0..jobs)
         .into_par_iter()
@@ -164,6 +175,8 @@ pub fn campaign(bin: &str, corpus: &Path, runs: u64, jobs: usize, seed: u64, max
                 .arg("-print_final_stats=1")
                 .arg(format!("-artifact_prefix={artifact_prefix}"))
                 .env("VERIF_FUZZ_XDG", &xdg)
+                .env("VERIF_SCRATCH", &xdg)
+                .envs(envs.iter().map(|(k, v)| (k.to_string(), v.to_string())))
                 .env("VERIF_FUZZ_DATA", if allow_data { "allow" } else { "never" })
                 .env("ASAN_OPTIONS", "detect_leaks=1:abort_on_error=0:symbolize=1")
                 .env("RUST_BACKTRACE", "0")
